@@ -626,3 +626,156 @@ theorem allChoices_nodup : ∀ i : Nat, (allChoices i).Nodup
     rw [h.1, h.2]
 
 end Strand
+
+namespace Strand
+
+/-! ### choice vectors ↔ permutations -/
+
+/-- all outputs of the loop on `[0, …, n-1]`, one per legal choice vector -/
+def fyOutputs (n : Nat) : List (List Nat) :=
+  (allChoices (n - 1)).map (fisherYatesChoices (n - 1) (List.range n))
+
+theorem fyOutputs_length (n : Nat) : (fyOutputs n).length = n.factorial := by
+  unfold fyOutputs
+  rw [List.length_map, allChoices_length]
+  cases n with
+  | zero => rfl
+  | succ m => rfl
+
+theorem fyOutputs_nodup (n : Nat) : (fyOutputs n).Nodup := by
+  unfold fyOutputs
+  cases n with
+  | zero => simp [allChoices]
+  | succ m =>
+    apply List.Nodup.map_on _ (allChoices_nodup _)
+    intro js hjs js' hjs' h
+    exact fisherYatesChoices_injective _ _ js js' List.nodup_range
+      (by rw [List.length_range]; omega) ((mem_allChoices _ _).1 hjs) ((mem_allChoices _ _).1 hjs') h
+
+theorem fyOutputs_perm_permutations (n : Nat) :
+    (fyOutputs n).Perm (List.range n).permutations := by
+  apply List.Subperm.perm_of_length_le
+  · apply List.subperm_of_subset (fyOutputs_nodup n)
+    intro pm hpm
+    unfold fyOutputs at hpm
+    obtain ⟨js, _, rfl⟩ := List.mem_map.1 hpm
+    exact List.mem_permutations.2 (fisherYatesChoices_perm' _ _ _)
+  · rw [List.length_permutations, List.length_range, fyOutputs_length]
+
+theorem mem_fyOutputs_iff (n : Nat) (pm : List Nat) :
+    pm ∈ fyOutputs n ↔ pm.Perm (List.range n) := by
+  rw [(fyOutputs_perm_permutations n).mem_iff, List.mem_permutations]
+
+/-- every permutation of `[0, …, n-1]` is the output of exactly one legal choice vector -/
+theorem fisherYatesChoices_existsUnique (n : Nat) (pm : List Nat) (h : pm.Perm (List.range n)) :
+    ∃! js, ChoicesOK (n - 1) js ∧ fisherYatesChoices (n - 1) (List.range n) js = pm := by
+  have hm := (mem_fyOutputs_iff n pm).2 h
+  unfold fyOutputs at hm
+  obtain ⟨js, hjs, rfl⟩ := List.mem_map.1 hm
+  refine ⟨js, ⟨(mem_allChoices _ _).1 hjs, rfl⟩, ?_⟩
+  rintro js' ⟨h1, h2⟩
+  cases n with
+  | zero => rw [show js' = [] from h1, show js = [] from (mem_allChoices _ _).1 hjs]
+  | succ m =>
+    exact fisherYatesChoices_injective _ _ js' js List.nodup_range
+      (by rw [List.length_range]; omega) h1 ((mem_allChoices _ _).1 hjs) h2
+
+/-! ### the byte-driven loop is the choice-driven loop -/
+
+theorem fisherYatesLoop_succ (fuel i : Nat) (arr : List Nat) (bs : Bytes) :
+    fisherYatesLoop fuel (i + 1) arr bs =
+      match sampleSingleU32 (i + 2) fuel bs with
+      | none => none
+      | some (j, rest) => fisherYatesLoop fuel i (swapList arr (i + 1) j) rest := rfl
+
+/-- a successful run used a legal choice vector, and consumed `4k` bytes, `k ≥ i` words -/
+theorem fisherYatesLoop_eq_choices (fuel : Nat) : ∀ (i : Nat) (arr : List Nat) (bs : Bytes)
+    (pm : List Nat) (rest : Bytes), fisherYatesLoop fuel i arr bs = some (pm, rest) →
+    ∃ js, ChoicesOK i js ∧ pm = fisherYatesChoices i arr js ∧
+      ∃ k, i ≤ k ∧ 4 * k ≤ bs.length ∧ rest = bs.drop (4 * k)
+  | 0, arr, bs, pm, rest, h => by
+    simp only [fisherYatesLoop, Option.some.injEq, Prod.mk.injEq] at h
+    exact ⟨[], rfl, h.1.symm, 0, le_refl _, by omega, by rw [← h.2]; rfl⟩
+  | i + 1, arr, bs, pm, rest, h => by
+    rw [fisherYatesLoop_succ] at h
+    split at h
+    · cases h
+    · next j r hs =>
+      obtain ⟨js, h1, h2, k, hk1, hk2, hk3⟩ := fisherYatesLoop_eq_choices fuel i _ r pm rest h
+      have hj := sampleSingleU32_lt (by omega) hs
+      obtain ⟨k', hk'1, _, hk'3, hk'4⟩ := sampleSingleU32_consumes hs
+      subst hk'4
+      rw [List.length_drop] at hk2
+      refine ⟨j :: js, ⟨by omega, h1⟩, by rw [fisherYatesChoices]; exact h2, k' + k, by omega,
+        by omega, ?_⟩
+      rw [hk3, List.drop_drop, Nat.mul_add]
+
+theorem fisherYates_eq_choices {n : Nat} {bs : Bytes} {pm : List Nat} {rest : Bytes}
+    (h : fisherYates n bs = some (pm, rest)) :
+    ∃ js, ChoicesOK (n - 1) js ∧ pm = fisherYatesChoices (n - 1) (List.range n) js ∧
+      ∃ k, n - 1 ≤ k ∧ 4 * k ≤ bs.length ∧ rest = bs.drop (4 * k) :=
+  fisherYatesLoop_eq_choices 64 _ _ _ _ _ h
+
+/-! ### every index / every permutation is reached -/
+
+/-- every `j < range` is returned from a suitable 4-byte word -/
+theorem sampleSingleU32_full_range {range j : Nat} (hr2 : range < 2 ^ 32) (hj : j < range) :
+    ∃ w : Bytes, w.length = 4 ∧ ∀ (fuel : Nat) (rest : Bytes),
+      sampleSingleU32 range (fuel + 1) (w ++ rest) = some (j, rest) := by
+  have hr : 0 < range := by omega
+  have hacc := (accepted_iff hr hr2 j ((j * 2 ^ 32 + range - 1) / range)).2
+    ⟨le_refl _, Nat.lt_add_of_pos_right (Nat.pow_pos (by norm_num))⟩
+  have hlt := accepted_lt hj hacc.1
+  generalize (j * 2 ^ 32 + range - 1) / range = v at hacc hlt
+  refine ⟨leFixed 4 v, leFixed_length 4 v, fun fuel rest => ?_⟩
+  have hv : natOfLE (leFixed 4 v) = v := by
+    rw [natOfLE_leFixed, Nat.mod_eq_of_lt (by simpa using hlt)]
+  have hw : leFixed 4 v = [UInt8.ofNat (v % 256), UInt8.ofNat (v / 256 % 256),
+      UInt8.ofNat (v / 256 / 256 % 256), UInt8.ofNat (v / 256 / 256 / 256 % 256)] := rfl
+  rw [hw] at hv ⊢
+  simp only [List.cons_append, List.nil_append]
+  rw [sampleSingleU32_succ, hv, if_pos hacc.2, hacc.1]
+
+/-- every legal choice vector is realised by a byte string of `4·i` bytes (no rejection) -/
+theorem fisherYatesLoop_full_range (fuel : Nat) : ∀ (i : Nat) (arr js : List Nat) (rest : Bytes),
+    i + 1 < 2 ^ 32 → ChoicesOK i js →
+    ∃ bs : Bytes, bs.length = 4 * i ∧
+      fisherYatesLoop (fuel + 1) i arr (bs ++ rest) = some (fisherYatesChoices i arr js, rest)
+  | 0, arr, js, rest, _, h => by
+    rw [show js = [] from h]
+    exact ⟨[], rfl, rfl⟩
+  | _ + 1, _, [], _, _, h => h.elim
+  | i + 1, arr, j :: js, rest, hi, h => by
+    obtain ⟨w, hw1, hw2⟩ := sampleSingleU32_full_range (range := i + 2) (j := j) hi
+      (by have := h.1; omega)
+    obtain ⟨bs, hb1, hb2⟩ := fisherYatesLoop_full_range fuel i (swapList arr (i + 1) j) js rest
+      (by omega) h.2
+    refine ⟨w ++ bs, by rw [List.length_append, hw1, hb1]; ring, ?_⟩
+    rw [fisherYatesLoop_succ, List.append_assoc, hw2 fuel (bs ++ rest)]
+    simp only
+    rw [hb2, fisherYatesChoices]
+
+end Strand
+
+namespace Strand
+
+/-- the only way to get `none` with enough bytes for `fuel` candidates is `fuel` rejections in a
+    row (each has probability `< 1/2`, `two_pow_bitsOf_le`); there is no panicking branch -/
+theorem sampleBelowBigint_eq_none {bound : Nat} : ∀ {fuel : Nat} {bs : Bytes},
+    sampleBelowBigint bound fuel bs = none → fuel * needOf bound ≤ bs.length →
+    ∀ k, k < fuel →
+      bound ≤ bigintCandidate (bitsOf bound) ((bs.drop (k * needOf bound)).take (needOf bound))
+  | 0, _, _, _, _, hk => by omega
+  | fuel + 1, bs, h, hl, k, hk => by
+    rw [sampleBelowBigint_succ] at h
+    rw [Nat.add_mul, Nat.one_mul] at hl
+    split_ifs at h with h1 h2
+    · omega
+    · cases k with
+      | zero => rw [Nat.zero_mul, List.drop_zero]; omega
+      | succ k =>
+        have := sampleBelowBigint_eq_none h (by rw [List.length_drop]; omega) k (by omega)
+        rw [List.drop_drop, Nat.add_comm, ← Nat.succ_mul] at this
+        exact this
+
+end Strand
